@@ -882,6 +882,27 @@ func genDisclosure(r *runner, rng *hx.Rng, thorough bool) {
 				c.Fields = append(c.Fields, f)
 			}
 
+			// a descriptor that names an array and an element of the same array garbles the array (known finding, witnessed
+			// in the corpus): such descriptors ask for the element only, except one in forty
+			whole := map[int]bool{}
+			for _, f := range c.Fields {
+				for _, p := range f.Paths {
+					if p < 1000 {
+						whole[p] = true
+					}
+				}
+			}
+
+			if g.Intn(40) != 0 {
+				for j := range c.Fields {
+					for x, p := range c.Fields[j].Paths {
+						if p >= 1000 && whole[p%1000] {
+							c.Fields[j].Paths[x] = p % 1000
+						}
+					}
+				}
+			}
+
 			descs = append(descs, Desc{ID: d, Schema: []Sch{{URI: 1}}, Cons: c})
 		}
 
